@@ -25,9 +25,9 @@ type tierBEntry struct {
 
 func init() {
 	register(&Check{ID: "C04", Run: runC04, Configs: []load.Config{{Tags: "unsafe"}}, Expl: oblig.Explanation{
-		Text: "Static wire-schema check. (R1) For every message type registered with protocol.Register/RegisterOverride and every version in its declared range, the flattened wire schema is derived from the struct definitions and their `kafka:` tags by a mirror of structEncodeFuncOf/makeTypes and compared positionally (wire type, array nesting, compactness, tag buffers, tagged ids) with a reference: Tier A = hand-written Kafka definitions for the 21 APIs the Reader/Writer/Transport/group code depends on (internal/rules/ref/wire_schema_A.txt), Tier B = reviewed snapshot for the remaining admin APIs. Request-side nullability that Kafka forbids is a violation. (R2) Structural sanity of every message: request/response version ranges coincide, alternatives of a field are disjoint, nested fields stay inside the message's range, tagged ids unique, every array element occupies >= 1 byte. (R3) Legacy hand-written codec: size() ≡ bytes of writeTo() for every request type, and h.Size arithmetic of the write*Request functions, by symbolic byte algebra. (R4) Legacy ↔ reflective sibling agreement of wire-type sequences. (R5) Framing: size placeholder first, back-patched with len-4, header order; one frame consumed per ReadResponse. (R6) version gates. (R7) codec primitive wire effects and encoder/decoder dispatch agreement. Not decided: decode(encode(v)) == v for all values, reflection internals, correctness of the hand-written reference itself.",
-		Rule: "one obligation per (message, side, version) for R1; per message for R2; per legacy type/function for R3/R4; per primitive for R7; non-trivial = schema non-empty or an instruction inspected",
-		Trusted: []string{"go/types struct definitions and tags", "mirror of the tag interpreter (internal/an/schema.go), pinned by R6/R7", "hand-written Tier A reference; Tier B snapshot"},
+		Text:        "Static wire-schema check. (R1) For every message type registered with protocol.Register/RegisterOverride and every version in its declared range, the flattened wire schema is derived from the struct definitions and their `kafka:` tags by a mirror of structEncodeFuncOf/makeTypes and compared positionally (wire type, array nesting, compactness, tag buffers, tagged ids) with a reference: Tier A = hand-written Kafka definitions for the 21 APIs the Reader/Writer/Transport/group code depends on (internal/rules/ref/wire_schema_A.txt), Tier B = reviewed snapshot for the remaining admin APIs. Request-side nullability that Kafka forbids is a violation. (R2) Structural sanity of every message: request/response version ranges coincide, alternatives of a field are disjoint, nested fields stay inside the message's range, tagged ids unique, every array element occupies >= 1 byte. (R3) Legacy hand-written codec: size() ≡ bytes of writeTo() for every request type, and h.Size arithmetic of the write*Request functions, by symbolic byte algebra. (R4) Legacy ↔ reflective sibling agreement of wire-type sequences. (R5) Framing: size placeholder first, back-patched with len-4, header order; one frame consumed per ReadResponse. (R6) version gates. (R7) codec primitive wire effects and encoder/decoder dispatch agreement. Not decided: decode(encode(v)) == v for all values, reflection internals, correctness of the hand-written reference itself.",
+		Rule:        "one obligation per (message, side, version) for R1; per message for R2; per legacy type/function for R3/R4; per primitive for R7; non-trivial = schema non-empty or an instruction inspected",
+		Trusted:     []string{"go/types struct definitions and tags", "mirror of the tag interpreter (internal/an/schema.go), pinned by R6/R7", "hand-written Tier A reference; Tier B snapshot"},
 		Assumptions: []string{"the Tier A reference reproduces the Apache Kafka message definitions up to each API's highest version supported by the library"},
 	}})
 }
@@ -36,6 +36,7 @@ func runC04(p *load.Program, r *oblig.Report) {
 	c04Schemas(p, r)
 	c04Sanity(p, r)
 	c04Legacy(p, r)
+	c04Sibling(p, r)
 	c04Framing(p, r)
 	c04Primitives(p, r)
 }
